@@ -24,7 +24,9 @@ def _get_expectation(state_list: list[tuple[Any, float, float]], alpha: float):
         expectation += probability * value
         gathered += probability
 
-        if isclose(gathered, alpha):
+        # Stop as soon as the alpha tail is filled up to a relative tolerance. No absolute tolerance may be used here,
+        # since for a small alpha it would cut off a significant share of the tail.
+        if isclose(gathered, alpha, atol=0):
             break
 
     expectation = expectation / alpha
